@@ -184,8 +184,8 @@ class Ctx:
             body = ';\n  '.join(chunk)
             text = (header + '\nDefinition cases_ := [\n  ' + body + '\n].\n'
                     'Definition bad_ := map fst (filter (fun p => negb (snd p)) '
-                    '(combine (seq 0 (length cases_)) (map (%s) cases_))).\n'
-                    'Eval vm_compute in (length cases_, bad_).\n' % checker)
+                    '(combine (seq 0 (List.length cases_)) (map (%s) cases_))).\n'
+                    'Eval vm_compute in (List.length cases_, bad_).\n' % checker)
             ok, out, err = self.coq_eval('%s_%03d' % (name, k), text, timeout)
             if not ok:
                 return base, None, (err or out)[-3000:]
